@@ -10,6 +10,7 @@ from __future__ import annotations
 import collections
 
 import fiddle as fdl
+from fiddle import daglish
 
 from fvlib import sigs
 
@@ -51,6 +52,24 @@ def fkw(x=None, y=None, **kw):
 
 
 NT = collections.namedtuple('NT', ['p', 'q'])
+
+
+class Box:
+  """User-registered node type whose flatten allocates fresh temporaries on every call."""
+
+  def __init__(self, items):
+    self.items = list(items)
+
+  def __getitem__(self, i):
+    return self.items[i]
+
+
+daglish.register_node_traverser(
+    Box,
+    flatten_fn=lambda b: (tuple([list(b.items)][0]), None),
+    unflatten_fn=lambda values, _: Box(values),
+    path_elements_fn=lambda b: tuple(daglish.Index(i) for i in range(len(b.items))),
+)
 
 WRAP_NAMES = ['none', 'list', 'tuple', 'dict', 'namedtuple', 'list_in_dict']
 
